@@ -1701,7 +1701,20 @@ class Message_Router( Object ):
                 for r in data.multiple.request:
                     if log.isEnabledFor( logging.DETAIL ):
                         log.detail( "%s Process on %s: %s", self, target, enip_format( r ))
-                    target.request( r, addr=addr )
+                    try:
+                        target.request( r, addr=addr )
+                    except Exception as exc:
+                        # A request the target couldn't even recognize (eg. an unsupported service, or
+                        # one that failed to parse).  Answer it alone, with an error status; a failing
+                        # request doesn't affect its neighbours, or the Multiple Service Packet itself.
+                        log.normal( "%s Multiple Service Packet request failed with Exception: %s\nRequest: %s",
+                                    self, exc, enip_format( r ))
+                        r.pop( self.SV_COD_CTX, None )
+                        r.pop( 'status_ext', None )
+                        r.service= r.get( 'service', 0 ) | 0x80
+                        if not r.get( 'status' ):
+                            r.status= 0x08		# Service not supported
+                        r.input	= bytearray( Object.produce( r ))
                 data.status	= 0x00
             else:
                 raise AssertionError( "Unknown service code %s" % data.service )
@@ -1907,13 +1920,21 @@ class state_multiple_service( state ):
                 req		= dotdict()
                 req.input	= reqdata[beg:end]
                 source		= peekable( req.input )
-                with target.parser as machine:
-                    with contextlib.closing( machine.run( source=source, data=req )) as engine:
-                        for m,s in engine:
-                            pass
-                    assert machine.terminal, \
-                        "%s: Failed to parse Multiple Service Packet request %d" % (
-                            machine.name_centered(), oi )
+                try:
+                    with target.parser as machine:
+                        with contextlib.closing( machine.run( source=source, data=req )) as engine:
+                            for m,s in engine:
+                                pass
+                        assert machine.terminal, \
+                            "%s: Failed to parse Multiple Service Packet request %d" % (
+                                machine.name_centered(), oi )
+                except Exception as exc:
+                    # Unparsable.  Keep its place with nothing but the service code; it is answered
+                    # with an error (see Message_Router.request), and its neighbours are unaffected.
+                    log.normal( "%s Multiple Service Packet request %d failed to parse: %s", target, oi, exc )
+                    req		= dotdict( input=reqdata[beg:end] )
+                    if len( req.input ):
+                        req.service= bytearray( req.input[:1] )[0] & 0x7F
                 request.append( req )
 
         # If anyone holds the lock, post-process the closure.  In a multi-threaded environment, this
